@@ -217,6 +217,10 @@ class Linear(Sub):
         if wc and nx > 1:
             rec.label("one_decade_multidim:" + name)
         done = 0
+        bufs = None
+        if case["seed"] % 3 == 0:
+            bufs = (torch.zeros(nx, dtype=torch.float64), torch.zeros(ny, dtype=torch.float64), torch.zeros(nu, dtype=torch.float64), torch.zeros(nx, nx, dtype=torch.float64))
+            rec.label("args:inplace_buffers")
         for i in range(case["steps"]):
             u = rs.randn(nu) * 10 ** rs.uniform(-1, 1)
             y = rs.randn(ny) * 10 ** rs.uniform(-1, 1.5)
@@ -227,8 +231,17 @@ class Linear(Sub):
                 kw = {"R": Rm}
             if name == "UKF":
                 kw["k"] = k
+            if bufs is not None:
+                # the caller keeps estimate, covariance, input and measurement in preallocated tensors that are overwritten in place
+                # before every call, and hands the SAME tensor objects to the filter each time (a stale value cached against the
+                # identity of an argument - "same tensor as last time" - would be invisible with fresh tensors per call)
+                for b_, v_ in zip(bufs, (x, y, u, P)):
+                    b_.copy_(T(v_))
+                args = bufs
+            else:
+                args = (T(x), T(y), T(u), T(P))
             with rec.sut(name):
-                xo, Po = flt(T(x), T(y), T(u), T(P), **kw)
+                xo, Po = flt(*args, **kw)
             ref = kalman_mp(s["A"], s["B"], s["C"], s["D"], s["c1"], s["c2"], s["Q"], s["R"], x, P, u, y)
             xo, Po = xo.numpy(), Po.numpy()
             if not rec.check(bool(np.all(np.isfinite(xo)) and np.all(np.isfinite(Po))), "nonfinite:" + name, "%s returned non-finite values" % name):
